@@ -1,5 +1,6 @@
 (* C07 — check, compile and run agree on which sources are valid. *)
 From Lace Require Import Word Asm Cli CliProofs.
+From Lace Require Examples.
 Open Scope N_scope.
 
 (** For every source and feature setting: `check` succeeds iff `compile` succeeds iff `run` gets
@@ -10,3 +11,11 @@ Theorem C07_agree : forall feat src,
   (compile_exit feat src = 0 <-> run_assembles feat src = true).
 Proof. exact verdicts_agree. Qed.
 Print Assumptions C07_agree.
+
+(** Non-vacuity: both verdicts occur. *)
+Example C07_nonvacuous :
+  check_exit false Examples.ex_src_ok = 0 /\ exists d a n, assembles false Examples.ex_src_bad = Err d a n.
+Proof.
+  split; [|exact Examples.ex_rejected]. pose proof Examples.ex_assembles as H.
+  destruct (assemble false nil Examples.ex_src_ok) as [[im| |] sym]; try contradiction. apply H.
+Qed.
